@@ -32,6 +32,9 @@ func genOp(t *rapid.T, pool []string, ntypes int) Op {
 func Gen(t *rapid.T) *Case {
 	c := &Case{Store: rapid.SampledFrom([]string{"memory", "memory", "memory", "none", "sqlite", "durable"}).Draw(t, "store"),
 		Hooks: rapid.Bool().Draw(t, "hooks"), Obs: rapid.Bool().Draw(t, "obs"), Procs: rapid.SampledFrom([]int{2, 4, 8, 16}).Draw(t, "procs"), Nested: map[string][]Op{}}
+	if rapid.IntRange(0, 2).Draw(t, "panics") == 0 {
+		c.PanicEvery = rapid.IntRange(1, 4).Draw(t, "panicEvery")
+	}
 	groups := busmodel.ShardGroups()
 	g := groups[rapid.IntRange(0, len(groups)-1).Draw(t, "group")]
 	c.Types = []int{busmodel.ByName("E00"), g[0], g[1]}
